@@ -114,7 +114,7 @@ def check(ctx):
     hit_edges = [e for e in gf.dominating_edges(adopt[0]) if e.label and e.label[0] == 'cond' and cvar in norm(e.label[1])]
     ctx.need(len(hit_edges) == 1, 'fetcher: cache-hit test not recognised')
     he = hit_edges[0]
-    me = [e for e in he.src.succ if e.label and e.label[0] == 'cond' and e.label[2] is False][0]
+    me = [e for e in he.src.succ if e.label and e.label[0] == 'cond' and e is not he][0]
     facts = {f.text: f for f in he.facts()}
     ctx.inst('R3', fcb, 'hit-requires-truthy-result', cvar in facts and facts[cvar].pol is True, 'a falsy cache result (None / unparsable / empty) must not be adopted')
     reqs = gf.find(lambda n: method_call(n, '_request_toc_element'))
